@@ -1577,8 +1577,17 @@ class Skel:
             raise Unsupported("constant %r" % (e.value,))
         if isinstance(e, ast.Name):
             if e.id not in env:
+                if e.id in getattr(self, "module_globals", ()):
+                    return [], '(vglobal "%s")' % e.id, "V"      # a module-level variable: a named constant, like a dotted name
                 raise Unsupported("unknown name %s" % e.id)
             return [], cname(e.id), env[e.id]
+        if isinstance(e, ast.UnaryOp) and isinstance(e.op, ast.Not):
+            b, c, t = self.expr(e.operand, env)
+            if t == "V":
+                c, t = "(truthy %s)" % c, "bool"
+            if t != "bool":
+                raise Unsupported("not on %s" % t)
+            return b, "(negb %s)" % c, "bool"
         if isinstance(e, ast.UnaryOp) and isinstance(e.op, ast.USub):
             b, c, t = self.expr(e.operand, env)
             if t == "Z":
@@ -1696,6 +1705,10 @@ class Skel:
                     mlabel = e.func.attr + ("(" + ",".join(k.arg + "=" for k in e.keywords) + ")" if e.keywords else "")
                     return binds + [(v, 'call oracle "method:%s" [%s]' % (mlabel, "; ".join([co] + argv)))], v, "V"
             v = self.fresh()
+            if isinstance(e.func, ast.Name) and env.get(e.func.id) == "V":
+                # a call of a local value (a closure, a function received as an argument): the callee is the first argument
+                lab = "apply" + ("(" + ",".join(k.arg + "=" for k in e.keywords) + ")" if e.keywords else "")
+                return binds + [(v, 'call oracle "%s" [%s]' % (lab, "; ".join([cname(e.func.id)] + argv)))], v, "V"
             return binds + [(v, 'call oracle "%s" [%s]' % (fn, "; ".join(argv)))], v, "V"
         raise Unsupported("expression %s" % ast.unparse(e))
 
@@ -1774,10 +1787,16 @@ class Skel:
             env2 = dict(env)
             env2[s.name] = "V"
             return '%s <<- call oracle "def:%s" [%s] ;;\n  %s' % (cname(s.name), text, "; ".join(self.toV(cname(n), env[n]) for n in free), self.block(rest, env2, k, brk))
+        if isinstance(s, ast.Delete):
+            free = sorted({n.id for n in ast.walk(s) if isinstance(n, ast.Name) and n.id in env})
+            v = self.fresh()
+            return '%s <<- call oracle "%s" [%s] ;;\n  %s' % (v, ast.unparse(s).replace('"', "'"), "; ".join(self.toV(cname(n), env[n]) for n in free), nxt(env))
         if isinstance(s, ast.Break):
             if brk is None:
                 raise Unsupported("break outside a loop")
             return brk(env)
+        if isinstance(s, ast.Return) and self.stop_at is None and brk is None and s.value is None and self.depth == 0 and self.join == 0:
+            return "mret vnone"
         if isinstance(s, ast.Return) and self.stop_at is None and brk is None and s.value is not None and self.depth == 0 and self.join == 0:
             b, c, t = self.expr(s.value, env)
             return self.wrap(b, "mret %s" % self.toV(c, t))
@@ -1855,15 +1874,23 @@ class Skel:
                 return self.wrap(b, "if %s then\n  %s\n  else\n  %s" % (
                     c, self.block(s.body, env, nxt, brk), self.block(s.orelse, env, nxt, brk)))
             # names first bound inside the if stay local to it (a later use is then an unknown name: fail closed)
-            names = [n for n in self.assigned(s.body + s.orelse) if n in env]
+            a1, a2 = self.assigned(s.body), self.assigned(s.orelse)
+            fresh_both = [n for n in a1 if n in a2 and n not in env]     # first bound here, on both paths: bound afterwards too
+            names = [n for n in self.assigned(s.body + s.orelse) if n in env or n in fresh_both]
             t_, p_ = self.tup(names)
-            kk = lambda e2: "mret %s" % t_   # noqa: E731
+
+            def kk(e2):
+                vals = [self.toV(cname(n), e2[n]) if n in fresh_both else cname(n) for n in names]
+                return "mret %s" % (vals[0] if len(vals) == 1 else ("(" + ", ".join(vals) + ")") if vals else "tt")
             self.join += 1
             try:
                 br1, br2 = self.block(s.body, env, kk, None), self.block(s.orelse, env, kk, None)
             finally:
                 self.join -= 1
-            return self.wrap(b, "%s <<- (if %s then\n  %s\n  else\n  %s) ;;\n  %s" % (p_, c, br1, br2, nxt(env)))
+            env3 = dict(env)
+            for n in fresh_both:
+                env3[n] = "V"
+            return self.wrap(b, "%s <<- (if %s then\n  %s\n  else\n  %s) ;;\n  %s" % (p_, c, br1, br2, nxt(env3)))
         if isinstance(s, ast.For) and not s.orelse and not (isinstance(s.iter, ast.Call) and ast.unparse(s.iter.func) == "range") \
                 and not any(isinstance(n, (ast.Break, ast.Continue)) for n in ast.walk(s)):
             # for x in <opaque iterable> (no break): the iterable is evaluated (a logged call if it is one), then the body runs
@@ -1955,7 +1982,7 @@ class Skel:
     def translate(self):
         f = self.node
         a = f.args
-        if a.vararg or a.kwarg or a.kwonlyargs or a.posonlyargs:
+        if a.kwonlyargs or a.posonlyargs:
             raise Unsupported("argument form")
         if isinstance(self.stop_at, tuple) and self.stop_at[0] == "from":
             # the SUFFIX of the function: from the first top-level assignment to `name` to the end; the listed local names are
@@ -1971,14 +1998,20 @@ class Skel:
             return "Definition %s_result %s : M V V :=\n  %s." % (fname(f.name), " ".join("(%s : V)" % cname(n) for n in params_), body)
         # (default values only matter to callers that omit an argument; the translated function takes every parameter)
         env = {arg.arg: "V" for arg in a.args}
+        # *args / **kwargs: the tuple / dict of the extra arguments is one more opaque parameter
+        extra = [x.arg for x in (a.vararg, a.kwarg) if x is not None]
+        for x in extra:
+            env[x] = "V"
 
         def kend(env2):
             if f.name == "__init__" and self.stop_at is None and a.args and a.args[0].arg == "self":
                 return "mret self"        # a constructor: its result is the object it was given, as updated by the stores
+            if self.stop_at is None:
+                return "mret vnone"       # falling off the end of a function returns None
             raise Unsupported("the function ends before the cut (no assignment to %s)" % self.stop_at if self.stop_at
                               else "the function may end without return")
         body = self.block(f.body, env, kend, None)
-        params = " ".join("(%s : V)" % cname(arg.arg) for arg in a.args)
+        params = " ".join("(%s : V)" % cname(n_) for n_ in [arg.arg for arg in a.args] + extra)
         rt = "V" if len(self.result_names) <= 1 else "(" + " * ".join("V" for _ in self.result_names) + ")"
         return "Definition %s %s : M V %s :=\n  %s." % (self.defname or fname(f.name), params, rt, body)
 
@@ -2047,7 +2080,18 @@ SKEL_TARGETS = {"main_loop": ("main_loop.py", "fit_stacked_data", "bayesian_ic",
                 "ua_shallow": ("containers/arguments.py", "UserArguments.shallow_copy", None, []),
                 "ua_deep": ("containers/arguments.py", "UserArguments.deep_copy", None, []),
                 "aa_shallow": ("containers/arguments.py", "ADMMArguments.shallow_copy", None, []),
-                "aa_deep": ("containers/arguments.py", "ADMMArguments.deep_copy", None, [])}
+                "aa_deep": ("containers/arguments.py", "ADMMArguments.deep_copy", None, []),
+                # what is left of the library: property getters, the argument printer, the Numba guard, the observation hooks
+                "cp_size": ("containers/model_state.py", "ClusterParameters.size@getter", None, []),
+                "cp_members": ("containers/model_state.py", "ClusterParameters.member_points@getter", None, []),
+                "st_labels": ("containers/model_state.py", "ModelState.point_labels@getter", None, []),
+                "ua_print": ("containers/arguments.py", "UserArguments.print", None, []),
+                "ng_prange": ("numba_guard.py", "fake_prange", None, []),
+                "ng_njit": ("numba_guard.py", "fake_njit", None, []),
+                "ng_noop": ("numba_guard.py", "noop_decorator", None, []),
+                "vh_emit": ("_verif.py", "emit", None, []),
+                "vh_add": ("_verif.py", "add_listener", None, []),
+                "vh_clear": ("_verif.py", "clear_listeners", None, [])}
 
 
 def translate_skeleton(mod, src_root):
@@ -2061,6 +2105,8 @@ def translate_skeleton(mod, src_root):
                 if isinstance(n, ast.FunctionDef) and not any(isinstance(d, ast.Attribute) or (isinstance(d, ast.Name) and d.id == "property")
                                                               for d in n.decorator_list):
                     funcs[c_.name + "." + n.name] = n
+                elif isinstance(n, ast.FunctionDef) and any(isinstance(d, ast.Name) and d.id == "property" for d in n.decorator_list):
+                    funcs[c_.name + "." + n.name + "@getter"] = n
     out = [SKEL_HEADER % {"src": "src/fast_ticc/" + rel, "stop": (
         ("The SUFFIX of the function is translated: from the first assignment to `%s` to the end." % stop_at[1]) if isinstance(stop_at, tuple)
         else ("The function is translated up to (not including) the first assignment to `%s`: what follows is result assembly." % stop_at
@@ -2070,8 +2116,11 @@ def translate_skeleton(mod, src_root):
         return "".join(out), {name: "missing from the source"}
     try:
         sk = Skel(funcs[name], stop_at, results)
+        sk.module_globals = {t_.id for n_ in ast.walk(tree) if isinstance(n_, ast.Assign) and getattr(n_, "col_offset", 1) >= 0
+                             for t_ in n_.targets if isinstance(t_, ast.Name) and t_.id.isupper()} - {"LOGGER"}
+        sk.module_globals |= {n_.name for n_ in tree.body if isinstance(n_, ast.FunctionDef)}
         if "." in name:
-            sk.defname = "g_" + name.replace(".", "_").replace("__", "_")
+            sk.defname = "g_" + name.replace(".", "_").replace("@", "_").replace("__", "_")
         text = sk.translate()
         out.append("  (* %s, lines %d-%d (prefix) *)\n  %s\n\nEnd Gen.\n" % (name, funcs[name].lineno, funcs[name].end_lineno, text.replace("\n", "\n  ")))
         return "".join(out), {name: "ok"}
